@@ -176,8 +176,8 @@ def main(argv):
 
     # a broken obligation with no failing input yet: widen the search once
     if broken and not unknown and crash is None and tier == 'quick' and hasattr(mod, 'run'):
-        ctx.notes.append('obligation broken; widened search (scale x6, second seed)')
-        ctx.scale = 6
+        ctx.notes.append('obligation broken; widened search (scale x4, second seed)')
+        ctx.scale = 4
         ctx.rng = random.Random(seed + 7919)
         nd = len(ctx.disagreements)
         try:
